@@ -63,7 +63,25 @@ def _field_writes(func):
                     out.append((t, n.value, n))
         elif isinstance(n, ast.AugAssign) and isinstance(n.target, ast.Attribute) and n.target.attr in ('_uint', '_next'):
             out.append((n.target, None, n))
-    return out
+    # `x._uint = A` immediately followed by `x._uint op= B` is one read-modify-write `x._uint = A op B` (judged as such);
+    # any other augmented store keeps value None (not modelled: the rules report / refuse it)
+    merged = []
+    out.sort(key=lambda e: (e[2].lineno, e[2].col_offset))
+    for tgt, val, st in out:
+        if val is None and merged:
+            ptgt, pval, pst = merged[-1]
+            blk = getattr(st, '_parent', None)
+            sibs = None
+            for fld in ('body', 'orelse', 'finalbody'):
+                L = getattr(blk, fld, None)
+                if isinstance(L, list) and st in L:
+                    sibs = L
+            if pval is not None and norm(ptgt) == norm(tgt) and sibs is not None and pst in sibs and sibs.index(pst) + 1 == sibs.index(st):
+                comb = ast.BinOp(left=pval, op=st.op, right=st.value)
+                merged[-1] = (tgt, comb, st)
+                continue
+        merged.append((tgt, val, st))
+    return merged
 
 
 # ---------------------------------------------------------------------------
